@@ -25,7 +25,7 @@ YOUR TASK: make one small, realistic change to the package source (files under s
 Also write {wt}/demo_seeded.py: a self-contained program (standard library + the package; unittest.mock, asyncio and threads are fine; no network) that drives the real package code and exits with status 0 on the unmodified code but exits non-zero - printing what it observed that violates the property - when your change is applied. It will be run as: cd {wt} && PYTHONPATH={wt}/src /venv/bin/python demo_seeded.py   (it must finish within 60 seconds).
 Verify BOTH states yourself: run the demo with your change (must exit non-zero); then save your change (git -C {wt} diff -- src > /tmp/{name}.diff), revert it (git -C {wt} checkout -- src), run the demo (must exit 0), and re-apply (git -C {wt} apply /tmp/{name}.diff). Do not use git stash and do not commit. Never use pkill/killall with a file-name pattern (other people's processes with the same file name run on this machine) - kill only PIDs you started. Leave the worktree with your change applied (uncommitted) and demo_seeded.py present.
 
-Your final answer must contain: the diff, what exactly is needed for the break to manifest, the test-suite pass counts before and after, and the demo's exit status in both states.'''
+Your final answer must be SHORT (at most 250 words plus the diff): the diff, what exactly is needed for the break to manifest (3-5 sentences), the test-suite pass counts before and after, and the demo's exit status in both states. No tables, no extra commentary.'''
 os.makedirs('/tmp/prompts', exist_ok=True)
 for line in open('/verif/properties.jsonl'):
     d = json.loads(line)
